@@ -25,6 +25,9 @@ fn registry() -> Vec<(&'static str, RunFn, ReplayFn, u64)> {
         ("C14", props::c14::run, props::c14::replay, 10800),
         ("C15", props::c15::run, props::c15::replay, 10800),
         ("C16", props::c16::run, props::c16::replay, 10800),
+        ("C17", props::c17::run, props::c17::replay, 10800),
+        ("C18", props::c18::run, props::c18::replay, 10800),
+        ("C19", props::c19::run, props::c19::replay, 10800),
     ]
 }
 
